@@ -7,6 +7,7 @@ Definition pinned_pat_vq_forward : list (string * string) :=
   [("rearrange", "b d -> b 1 d");
    ("rearrange", "b c h w -> b (h w) c");
    ("rearrange", "b d n -> b n d");
+   ("einx.where", "b n, b n d, -> b n d");
    ("repeat", "b n -> c (b h) n");
    ("rearrange", "$dist_einops_eq");
    ("rearrange", "h b n -> b n h");
